@@ -262,6 +262,37 @@ func parallel(rng *rand.Rand, G, rounds int) {
 		}
 		sigs[sb.String()] = true
 	}
+	// hand-over: ONE iterator advanced alternately by two goroutines (properly synchronised through
+	// unbuffered channels): its record must equal the solo record and the race detector must stay silent
+	for _, k := range kinds {
+		l := &mon.Log{}
+		g := k.mk(l)
+		var rec []string
+		turnA, turnB := make(chan int), make(chan int)
+		var wg sync.WaitGroup
+		worker := func(my, other chan int) {
+			defer wg.Done()
+			for n := range my {
+				advance(g, l, &rec)
+				if n+1 >= maxM {
+					close(other)
+					return
+				}
+				other <- n + 1
+			}
+		}
+		wg.Add(2)
+		go worker(turnA, turnB)
+		go worker(turnB, turnA)
+		turnA <- 0
+		wg.Wait()
+		res.Eval(1)
+		want := solos[k.name]
+		if len(rec) != maxM || strings.Join(rec, "|") != strings.Join(want[:len(rec)], "|") {
+			res.Violate("handover:"+k.name, "handover-changes-sequence", fmt.Sprintf("iterator %s advanced alternately by two goroutines: alone %v, handed over %v", k.name, want, rec), nil)
+		}
+		res.Count("handover_advances", len(rec))
+	}
 	res.Count("parallel_rounds", rounds)
 	res.Count("goroutines_per_round", G)
 	res.Count("distinct_interleavings_observed", len(sigs))
